@@ -93,6 +93,13 @@ Theorem alternative_within_truncated_refuted :
 Proof. split; vm_compute; reflexivity. Qed.
 Print Assumptions alternative_within_truncated_refuted.
 
+(* ---- path steps: a list index is never equal to a key (x:y[12] is not x:y.'12'), indices come first ---- *)
+
+Theorem source_path_steps :
+  src_step_cmp = IndexBeforeKey /\ (forall z s, step_cmp (SIdx z) (SKey s) = Lt /\ step_cmp (SKey s) (SIdx z) = Gt).
+Proof. split; [reflexivity | intros; split; reflexivity]. Qed.
+Print Assumptions source_path_steps.
+
 (* ---- simple_comparison_expression_cmp compares path, operator, negated (non-negated first), constant, in this order ---- *)
 
 Theorem source_comparison_fields : forall x y, atom_cmp x y = atom_cmp_by src_atom_steps x y.
